@@ -186,6 +186,7 @@ def history_job(job):
             _keep(fails, sig, f["detail"], {"kind": "history", "family": fam, "cfg": list(cfg), "history": h,
                                            "failing_item": f.get("id"), "step": f.get("step")}, len(h) <= 3)
     stats["contracts"] = dict(cs.evaluated)
+    stats["foreign_rows"] = lmon.FOREIGN_ROWS[0]
     return stats, fails
 
 
@@ -342,6 +343,7 @@ def absorb_history(chk, r, label):
     chk.count("saves that overflowed MAX_ROWS and exported by themselves", st["auto_exports"])
     for k, n in st.get("contracts", {}).items():
         chk.count("post-condition evaluated: " + k, n)
+    chk.count("unit-level rows compared whose own unit_id differs from the key they were saved under", st.get("foreign_rows", 0))
     note_sigs(chk, st["by_sig"])
     for sig, detail, case in fails:
         chk.fail(sig, detail, case)
@@ -640,6 +642,7 @@ def main():
     chk.require("histories ending with >= 2 bundle files", floor(1000, 20000))
     for src in ("item-cache", "active-bundle", "bundle-cache", "bundle-file"):
         chk.require(f"reads served from {src}", floor(3000, 50000))
+    chk.require("unit-level rows compared whose own unit_id differs from the key they were saved under", floor(3000, 100000))
     chk.require("map loaders: reads compared with the model", floor(2000, 20000))
     chk.require("fault injection: write failures that happened", floor(100, 300))
     chk.require("real runs compared", floor(3, 20))
@@ -652,9 +655,12 @@ def main():
         "content is compared through canonical forms computed from the objects (dataclass fields, graph edges, table rows): numbers by "
         "Python equality (3.0 == 3), missing values (None/NaN) dropped from table rows, sets sorted; a read returning None means 'no item'; "
         "an empty item is not 'no item', and a plain [] where a graph/dict/space object is due is not the item",
-        "State.value is text by the definition of the storage format (to_dict stores str(value)); the unit_id/method_id column of a row is "
-        "the key the item was saved under; a missing CFG / symbol-graph edge label is stored as 0; collections the loaders declare as sets "
-        "are compared as sets",
+        "State.value is text by the definition of the storage format (to_dict stores str(value)); a missing CFG / symbol-graph edge label "
+        "is stored as 0; collections the loaders declare as sets are compared as sets",
+        "unit-level items (GIR, scope hierarchy, export symbols) are lists of rows that belong to the key they are saved under whatever "
+        "their own unit_id field says (generated: equal to the key, another saved unit's id, absent / -1, an id nobody is saved under); "
+        "every row must come back under its key and under no other (row identity = all columns but unit_id); for the unit_id column "
+        "itself both the key (what the unchanged code writes) and the row's own value are accepted; no caller reads it back",
         "map loaders whose save() defines an empty collection as 'nothing to record' (one-to-many maps, methods in class) are not given "
         "empty contents; reverse look-ups (many -> one) are not part of the item and are not judged",
         "a failed write counts as reported when an exception reaches the caller or the failure's own message appears on stdout/stderr",
